@@ -4,6 +4,7 @@ import (
 	"strings"
 	"time"
 
+	"github.com/NVIDIA/KAI-scheduler/pkg/scheduler/actions/consolidation"
 	"github.com/NVIDIA/KAI-scheduler/pkg/scheduler/actions/preempt"
 	"github.com/NVIDIA/KAI-scheduler/pkg/scheduler/actions/reclaim"
 	"github.com/NVIDIA/KAI-scheduler/pkg/scheduler/api/common_info"
@@ -34,6 +35,7 @@ type evictOpts struct {
 	fixedCpu                float64 // with sameCpu: the shared request is this concrete value
 	symLimit                bool    // the pending job's leaf queue (single-department world) has a symbolic limit
 	gpuDim                  bool    // whole GPUs instead of milli-cpu (requests >= 1)
+	secondNode              bool    // a second node n1 with symbolic free capacity (victims run on n0)
 	signatures              bool    // scheduling signatures on (failed jobs' shape prunes later identical ones)
 }
 
@@ -140,6 +142,9 @@ func actEvictWorld(o evictOpts) *evictWorld {
 		nodeCpu = nat("n0.cpu") + total
 	}
 	w.addNode("n0", nodeCpu)
+	if o.secondNode {
+		w.addNode("n1", nat("n1.cpu"))
+	}
 	pname := "p0"
 	pp := true
 	if !o.fixedPending {
@@ -447,4 +452,45 @@ func VerifC08_PreemptAction() {
 	preempt.New().Execute(w.ssn)
 	w.observe()
 	vr.Assert(w.postAlloc("qa") <= lim, "C08.preempt-action-keeps-queue-within-limit")
+}
+
+// nominatedElsewhere: the evicted pod was nominated to a node other than the one it ran on.
+func (w *evictWorld) nominatedElsewhere(uid, from string) bool {
+	for _, rec := range w.cache.pipelines {
+		if strings.HasPrefix(rec, uid+"@") && rec != uid+"@"+from {
+			return true
+		}
+	}
+	return false
+}
+
+// VerifC06_ConsolidationAction: the real consolidation action on two nodes: a running pod is moved
+// only if it belongs to a preemptible workload and the same decision re-places it on another node,
+// together with the placement of the pending job it was moved for.
+// BOUND: 2 nodes (n0 full with 1..2 running single-pod jobs, n1 with symbolic free cpu), one pending preemptible job; independent symbolic cpu requests; victims' preemptibility explored; queues d <- qa (pending), qb (running)
+func VerifC06_ConsolidationAction() {
+	w := actEvictWorld(evictOpts{bits: 5, nVictims: vr.Bound("victims", 1, 2), victimQ: []string{"qb"}, pendingQ: "qa", fixedPending: true, nodeSlack: true, secondNode: true})
+	consolidation.New().Execute(w.ssn)
+	w.observe()
+	for _, v := range w.victims {
+		for _, t := range v.tasks {
+			if !w.evicted(string(t.UID)) {
+				continue
+			}
+			vr.Assert(v.preempt, "C06.consolidation-action-moves-only-preemptible-workloads")
+			vr.Assert(w.nominatedElsewhere(string(t.UID), "n0"), "C06.consolidation-action-re-places-every-pod-it-evicts")
+			vr.Assert(w.placed(w.pending), "C06.consolidation-action-evicts-only-together-with-the-placement")
+		}
+	}
+}
+
+// VerifC06_ReclaimActionTwoNodes: the real reclaim action (consolidating reclaim allowed) with a
+// second node on which evicted pods may be re-placed: victim eligibility - in particular the
+// min-runtime protection of elastic workloads - holds whether or not the victims are re-placed.
+// BOUND: 2 nodes; queues d <- qa (pending), qb; victim v0 elastic (2 pods, minimum 1) in qb with age and reclaim min-runtime (on qb) explored, 0..63 h; independent symbolic cpu requests
+func VerifC06_ReclaimActionTwoNodes_Thorough() {
+	w := actEvictWorld(evictOpts{bits: 5, nVictims: 1, victimQ: []string{"qb"}, pendingQ: "qa", elastic: true, minRuntime: true, fixedPending: true, fixedPreemptibleVictims: true, secondNode: true, nodeSlack: true})
+	reclaim.New().Execute(w.ssn)
+	w.observe()
+	w.assertVictimsEligible(true, "reclaim")
 }
